@@ -149,6 +149,11 @@ example : ∀ r ∈ [mkResp [ofStr "E"] (ofStr "a") (ofStr "ok"), mkResp [ofStr 
   simp only [List.mem_cons, List.mem_nil_iff, or_false] at hr
   rcases hr with h | h <;> subst h <;> exact recorded_mkResp _ _ _
 
+/-- Why `Recorded` is assumed: `AppendResponse` only looks for an `*OperationError`. A member that
+carries some other error (e.g. a collapsed `SendConfig` response, whose error is a
+`*MultiOperationError`) is kept but not counted. No code path of the drivers appends such a member. -/
+example : (Multi.empty.append { input := [], result := [], fwc := [], failed := some (.multi []) }).failed = none := rfl
+
 /-- The multi-response keeps every member in order, and its error lists exactly the errors of the
 failed members, in member order (and is a `*MultiOperationError`, never anything else). -/
 theorem multi_lists_exactly_failed_members (rs : List Resp) (hrec : ∀ r ∈ rs, Recorded r) :
